@@ -329,7 +329,10 @@ fn c15_eval(
         }
         return;
     }
-    if d[0] == 0 || d[1] == 0 || r[0] == 0 || r[1] == 0 {
+    // the bounds are evaluated by cross-multiplication, which stays meaningful when one reserve
+    // is zero (a one-sided pool: one ratio is infinite, the other zero); with both reserves or a
+    // deposit at zero the ratios of the statement denote nothing
+    if d[0] == 0 || d[1] == 0 || (r[0] == 0 && r[1] == 0) {
         return;
     }
     let omt = &e18 - &t;
